@@ -1655,7 +1655,8 @@ def emoji_search(vs):
             scs.append({"steps": [{"op": "new", "config": cfg}] + [{"op": "key", "key": keys[ch], "sel": 0} for ch in emo]})
             meta.append(("emoticon", emo, [emoji]))
     for name, ems in list(data["emoji_name"].items()):
-        if all(ch in keys for ch in name) and name not in data["emoticon"]:
+        # names that can be typed as a word: the splitter takes punctuation at the ends for punctuation, a name made of it alone has no word part
+        if all(ch in keys for ch in name) and name not in data["emoticon"] and name[0].isalnum() and name[-1].isalnum():
             for pre, trail in (("", ""), ("(", ")")):
                 t = pre + name + trail
                 if t in data["emoticon"]:
